@@ -1,4 +1,37 @@
-(* placeholder until the theorems are in place *)
-From Lhasa Require Import Base Header.
-Example collapse_example : collapse_path [97; 47; 46; 46; 47; 98; 47]%N = [98; 47]%N.
-Proof. vm_compute. reflexivity. Qed.
+(* Properties_C05.v -- C05: every well-formed level 0-3 header is returned with
+   exactly its encoded fields.  Statements only; the specification (field record,
+   encoder for the four levels, wf_fields, normalise) is S_Header.v, the proofs
+   are in P_Header.v. *)
+From Lhasa Require Import Base Generated InputStream Header S_Header P_Header.
+Local Open Scope N_scope.
+
+Section C05.
+  (* libc mktime, applied to the fields of a DOS time stamp *)
+  Variable mktime : N -> N -> N -> N -> Z -> N -> N.
+
+  (* For every well-formed field record -- any level 0..3, any field values, any
+     list of extended headers in any order (all known types, duplicates, unknown
+     types), level-0 Unix / OS-9 extended areas, directories and symlinks -- and any
+     following data: parsing the encoded header yields exactly normalise(fields)
+     (separators normalised, DOS names folded, OS-9 permissions mapped, -lk7-
+     renaming, level-1 compressed size reduced by the extended headers, later
+     extended headers overriding earlier ones, path collapsed), and leaves the
+     stream positioned at the member's data. *)
+  Theorem header_roundtrip : forall f data, wf_fields f = true ->
+    lha_file_header_read mktime (ready_stream (encode_header f ++ data)) =
+    Ok (normalise mktime f, ready_stream_after f data).
+  Proof. exact (P_Header.header_roundtrip mktime). Qed.
+
+  Theorem header_roundtrip_data : forall f data, wf_fields f = true ->
+    exists st, lha_file_header_read mktime (ready_stream (encode_header f ++ data)) = Ok (normalise mktime f, st)
+               /\ so_data (is_src st) = data /\ is_leadin st = [] /\ is_state st = IS_READING.
+  Proof. exact (P_Header.header_roundtrip_data mktime). Qed.
+End C05.
+
+(* the model's in-place path collapser is the stack-based specification *)
+Theorem collapse_path_is_spec : forall p, collapse_path p = collapse p.
+Proof. exact P_Header.collapse_path_is_collapse. Qed.
+
+Print Assumptions header_roundtrip.
+Print Assumptions header_roundtrip_data.
+Print Assumptions collapse_path_is_spec.
